@@ -6,6 +6,7 @@ package main
 
 import (
 	"fmt"
+	"math"
 	"strings"
 	"unicode/utf8"
 )
@@ -37,7 +38,8 @@ func (r *Rng) Scalar(c *GenCfg) interface{} {
 	case 0:
 		return float64(r.Intn(5))
 	case 1:
-		return []float64{1.5, -2, 1e21, 0.25, 100}[r.Intn(5)]
+		// (pairs of numbers that differ in the last bit or beyond the ninth significant digit)
+		return []float64{1.5, -2, 1e21, 0.25, 100, 0.3, 0.30000000000000004, 1e10, 1e10 + 1, 0.1, 0.1 + 1e-12, 0, math.Copysign(0, -1)}[r.Intn(13)]
 	case 2:
 		return r.Bool()
 	case 3:
@@ -52,7 +54,7 @@ func (r *Rng) Scalar(c *GenCfg) interface{} {
 
 func (r *Rng) Key(c *GenCfg) string {
 	if c.OddKeys && r.P(15) {
-		return r.Pick([]string{"", ".", "a.b", "[0]", "*", "a[1]", "!", "-", "#", " ", "k]", "]", "a]b"})
+		return r.Pick([]string{"", ".", "a.b", "[0]", "*", "a[1]", "!", "-", "#", " ", "k]", "]", "a]b", "caf\xe9", "\x80k"})
 	}
 	return r.Pick(c.Keys)
 }
